@@ -17,9 +17,11 @@ CONSTANTS
   AllowUnsub = TRUE
   AllowParentCancel = FALSE
   CtxCancels = 0
+  Redundant = 0
   WaitLocksMu = FALSE
   StatsBuffered = TRUE
   RecvWaitsFirst = FALSE
   KF_UnsubWindow = TRUE
+  CtlBuf = 0
 INVARIANTS TypeOK OnlyPublishedInv NoDuplicateInv ExactlyOnceInv OrderInv NoStall CtxRespected StopReturns CleanShutdown MutexFree
 CHECK_DEADLOCK FALSE
